@@ -330,3 +330,6 @@ func PlainRoundTrip(cfg Config, data []byte) string {
 	}
 	return ""
 }
+
+// PlainCompress is plainCompress for the triage tools.
+func PlainCompress(cfg Config, data []byte) ([]byte, error) { return plainCompress(cfg, data) }
